@@ -233,7 +233,7 @@ PerMsg(c, o, m, L, ev) ==
   (* ---------------- C12 ---------------- *)
   \cup (IF \A d \in RangeS(closed) : CntX(L, "dep_close", d) = 1 /\ HasX(L, "dep_open", d)
         THEN {} ELSE {"C12_Once"})
-  \cup (IF ev.e = "cb_e" /\ endedOk /\ RangeS(opened) # RangeS(closed) THEN {"C12_Once"} ELSE {})
+  \cup (IF ev.e = "cb_e" /\ RangeS(opened) # RangeS(closed) THEN {"C12_Once"} ELSE {})
   \cup (IF ev.e = "dep_close" /\ ~doneExec
            /\ ~(\E d \in RangeS([i \in 1..Len(c.deps) |-> c.deps[i].id]) : DepRec(c, d).fail /\ HasX(L, "dep_open", d))
         THEN {"C12_AfterTask"} ELSE {})
